@@ -84,6 +84,8 @@ pub fn local_fns(inner: Inner, no_std: bool) -> String {
     pub fn s_appendx(mut s: String) -> String { s.push('X'); s }
     pub fn s_padsp(s: String) -> String { format!(" {s} ") }
     pub fn s_repl(s: String) -> String { s.replace('a', "b") }
+    pub fn s_at2sp(s: String) -> String { s.replace('@', " ") }
+    pub fn s_bang2z(s: String) -> String { s.replace('!', "Z") }
     pub fn s_prepz(s: String) -> String { format!("Z{s}") }
     pub fn p_has_at(s: &str) -> bool { s.contains('@') }
     pub fn p_ascii(s: &str) -> bool { s.is_ascii() }
@@ -320,6 +322,37 @@ pub fn c12_gate_units() -> Vec<Unit> {
                 decl,
                 nontrivial: true,
             });
+        }
+    }
+    // `new_unchecked` is the one way around `finite`: with the feature and the flag it exists, and calling it
+    // outside `unsafe` must not compile - in any flavour of the declaration
+    for (inner, ty) in [(Inner::F32, "f32"), (Inner::F64, "f64")] {
+        for (fl, flags) in [("plain", "new_unchecked"), ("const_fn", "const_fn, new_unchecked"), ("const_fn-last", "new_unchecked, const_fn")] {
+            for (kind, body, expect, errs) in [
+                ("safe-call", format!("pub fn attack() -> T {{ T::new_unchecked({ty}::NAN) }}"), Expect::Reject, vec!["E0133".to_string()]),
+                ("safe-call-in-const", format!("pub const ATTACK: T = T::new_unchecked({ty}::INFINITY);"), Expect::Reject, vec![]),
+                ("unsafe-call-control", "pub fn control() -> T { unsafe { T::new_unchecked(1.0) } }".to_string(), Expect::Accept, vec![]),
+            ] {
+                if kind == "safe-call-in-const" && fl == "plain" {
+                    continue; // not a const fn at all: rejected for that reason, says nothing
+                }
+                let attr = format!("{flags}, validate(finite), derive(Debug, Clone, Copy, PartialEq, Eq, PartialOrd, Ord)");
+                let (mut source, decl) = raw_unit(inner, &attr, &format!("pub struct T({ty});"), "");
+                source.push_str(&body);
+                source.push('\n');
+                out.push(Unit {
+                    id: String::new(),
+                    class: format!("new_unchecked:{kind}:{fl}"),
+                    features: feats(ALL),
+                    source,
+                    expect,
+                    expect_errors: errs,
+                    tests_must_fail: vec![],
+                    tests_must_pass: vec![],
+                    decl,
+                    nontrivial: true,
+                });
+            }
         }
     }
     for (i, u) in out.iter_mut().enumerate() {
